@@ -50,7 +50,10 @@ func signOf(m, d int) int {
 	return -1
 }
 
+var c20InHistory bool
+
 func c20Run(w *W, c Case) {
+	c20InHistory = c.K == "history"
 	if c.K == "history" {
 		ys := allYears()
 		if c.A[0] == 0 {
@@ -153,6 +156,22 @@ func c20Year(w *W, y int) {
 			if d%5 == 0 {
 				s.GetFestivals().PushBack("(caller's note)")
 				s.GetOtherFestivals().PushBack("(caller's note)")
+			}
+			// a Solar of another day reached from this (by now fully questioned) one, or built through a Julian day that
+			// rounds up to a midnight, answers like one constructed from its fields
+			if (d+m)%4 == 0 && !c20InHistory {
+				rs := []*calendar.Solar{s.NextYear(1), s.NextYear(-3), s.NextMonth(1), s.NextDay(1), s.NextHour(24), s.Next(-1, false), s.GetLunar().GetSolar(),
+					calendar.NewSolarFromJulianDay(s.GetJulianDay() - 0.3/86400)}
+				for ri, r := range rs {
+					if r.GetYear() < minYear || r.GetYear() > maxYear {
+						continue
+					}
+					f := calendar.NewSolar(r.GetYear(), r.GetMonth(), r.GetDay(), r.GetHour(), r.GetMinute(), r.GetSecond())
+					if a, b := fmt.Sprint(listStrings(r.GetFestivals()), listStrings(r.GetOtherFestivals()), r.GetXingZuo(), r.GetWeek()), fmt.Sprint(listStrings(f.GetFestivals()), listStrings(f.GetOtherFestivals()), f.GetXingZuo(), f.GetWeek()); a != b {
+						w.Violatef("festivals-route", fmt.Sprintf("%s/route%d", key, ri), "the Solar %s reached from %s (route %d: +1y / -3y / +1 month / +1 day / +24 h / -1 day / via lunar / Julian day 0.3 s before midnight) reports %s, one constructed from the same fields %s", r.ToYmdHms(), key, ri, a, b)
+					}
+				}
+				w.Eval(len(rs))
 			}
 			s2 := calendar.NewSolarFromYmd(y, m, d)
 			if g2, o2 := listStrings(s2.GetFestivals()), listStrings(s2.GetOtherFestivals()); strings.Join(g2, "|") != strings.Join(gf, "|") || strings.Join(o2, "|") != strings.Join(go2l, "|") {
